@@ -7,7 +7,7 @@
 (*  - with Emit = TRUE every behaviour of length Depth is printed as one JSON case     *)
 (*    that the harness replays on the real ohsl::Matrix (spec -> implementation).      *)
 EXTENDS Dense, TLC, Json
-CONSTANTS MaxDim, Depth, Emit
+CONSTANTS MaxDim, Depth, Emit, FullInit
 VARIABLES m, m0, hist
 vars == <<m, m0, hist>>
 
@@ -44,7 +44,7 @@ Ops(M) ==
   \cup {[Op("mul_assign") EXCEPT !.s = -2], [Op("div_assign") EXCEPT !.s = -1]}
   \cup {[Op("add_scalar_assign") EXCEPT !.s = 3], [Op("sub_scalar_assign") EXCEPT !.s = 5]}
 
-Init == /\ \E r \in Dims, c \in Dims : m0 = Distinct(r, c)
+Init == /\ \E r \in Dims, c \in Dims : m0 = Distinct(r, c) /\ (FullInit \/ (r = MaxDim /\ c = MaxDim))
         /\ m = m0 /\ hist = <<>>
 Next == /\ Len(hist) < Depth
         /\ \E o \in Ops(m) : m' = ApplyOp(m, o) /\ hist' = Append(hist, o)
